@@ -86,6 +86,13 @@ def install(it):
         return some(RefV(am.m, a[1].v)) if a[1].v in am.m else none()
     M['ArenaMap::get'] = am_get
     M['Arena::shrink_to_fit'] = lambda it_, c, a: UNIT
+
+    def arena_iter(it_, c, a):
+        ar = models.deref(a[0])
+        if not isinstance(ar, ArenaV):
+            return NotImplemented
+        return PyIter((tup(idx(i), RefV(ar.items, i)) for i in range(len(ar.items))))
+    M['Arena::iter'] = arena_iter
     # IdxRange<Pattern> (lambda parameters): modelled as a python range of raw ids
     M['<IdxRange as Clone>::clone'] = lambda it_, c, a: models.deref(a[0])
     TM_into = TM.get(('IntoIterator', 'into_iter'))
